@@ -314,6 +314,29 @@ HOSTILE = {
     '_type_params': ['T, U', 'T: int, *Ts, **P', '', 'T,', 'T] = int; type X[U'],
     'stmt': ["'é';", "x = 'ü'; y", 'a', 'a = 1', 'a; b', 'a\nb', 'if a: pass', '', 'pass;', ' a', '# c', 'if a:\n  pass\nelse:\n  pass'],
 }
+# text that closes the wrapper of the mode, goes on as the BODY / rest of the wrapping construct on further (indented) lines and opens what the wrapper's tail then closes
+ESCAPES = {
+    'arguments': ['a):\n  def g(b', 'a):\n  x = (b', 'a) -> c:\n  def g(b', '):\n  def g(b', 'a=(1)):\n  def g(b=(2)'],
+    'arg': ['a):\n  def g(b', 'a: int):\n  def g(b', 'a):\n  x = (b'],
+    'arguments_lambda': ['a: 0\nlambda b', 'a: (0)\n(lambda b'],
+    '_withitems': ['a):\n with (b', 'a as x):\n with (b', 'a):\n  x = (b', 'a, b):\n with (c, d'],
+    'withitem': ['a):\n with (b', 'a as x):\n with (b'],
+    'pattern': ['a:\n  match b:\n   case c', 'a:\n  x\n case c', 'a:\n  pass\n case c', '[a]:\n  match b:\n   case [c]'],
+    'expr_slice': ['b].x[c', 'b]()[c', 'b] + d[c', 'b], e[c', 'b][0].x[c', 'b] if d else e[c'],
+    'expr': ['a)\n(b', 'a).x(b', 'a)()(b', 'a) + (b'],
+    'expr_arglike': ['a)\n_(b', 'a).x(b', '*a)\n_(*b'],
+    '_arglike': ['a)\n_(b', 'a).x(b', 'k=a)\n_(j=b'],
+    'keyword': ['a=1)\n_(b=2', 'a=1).x(b=2'],
+    '_type_params': ['T]():\n  def g[U', 'T] = int\ntype Y[U'],
+    'type_param': ['T]():\n  def g[U', 'T] = int\ntype Y[U'],
+    '_comprehension_ifs': ['if a]\n[x for x in y if b', 'if a].x[b'],
+    'comprehension': ['for a in b]\n[c for d in e', 'for a in b].x[c'],
+    '_comprehensions': ['for a in b]\n[c for d in e'],
+    'ImportFrom_name': ['a)\nfrom . import (b', 'a as x)\nfrom . import (b'],
+    '_ImportFrom_names': ['a, c)\nfrom . import (b'],
+    '_decorator_list': ['@a\ndef f(): pass\n@b', '@a\nclass X:\n  pass\n@b'],
+    'ExceptHandler': ['except A: pass\nfinally: pass\ntry: pass\nexcept B: pass', 'except A:\n  try: pass\n  except B: pass'],
+}
 
 
 def relayout_fragment(src, rng, mode):
@@ -600,6 +623,8 @@ def stage_fragments(ctx: Ctx, progs):
             if rng.random() < 0.4:
                 v = multibyte(relayout_fragment(src, rng, mode) if rng.random() < 0.5 else src, rng)
                 check_fragment(ctx, mode, v, 'multibyte')
+        for src in ESCAPES.get(mode, []):
+            check_fragment(ctx, mode, src, 'hostile')
         for src in HOSTILE.get(mode, []):
             check_fragment(ctx, mode, src, 'hostile')
             for _ in range(2):
